@@ -7,6 +7,9 @@ CHECKS={
  "C01":dict(cat="exploration",technique="runtime monitoring: differential execution in V8 (node vm) of input and minified output under a logging host, observation logs compared offline",
    text="Each accepted program (frozen test-table inputs run as open fragments against logging mocks, plus seeded generated closed programs) is minified by the real JS minifier under a configuration from KeepVarNames x Version and both texts are executed by V8 in fresh deterministic realms; the ordered host-call log, final globals, top-level lexical values and completion must be identical, and the output must compile.",
    note="Sampled input space; V8 + acorn are the oracle base; reflection the property excludes is made constant in the realm; nine genuine defects that are pinned by the suite or live in the dependency are known findings with generator guards.",ref="DESIGN.md §5 C01"),
+ "C02":dict(cat="exploration",technique="runtime monitoring: differential execution in V8 of scope-stress programs with unique tagged values at every binding and h() observation of every visible name, plus acorn-based scope analysis of input vs output",
+   text="Seeded scope trees (nested function/arrow/method/class/block/for/switch/catch scopes with shadowing, destructuring parameters with defaults, var hoisting, labels/property names equal to locals, with-functions, free globals named like generated names, closures run after scope exit) and wide scopes of up to 4000 bindings are minified with renaming on and with KeepVarNames; both texts run in V8 and every observation site must see the same tagged values; statically, the output may have no new free names, the same top-level and import/export names, no new names inside with-functions, and under KeepVarNames no identifier that the input lacks.",
+   note="Sampled; static monitors are inclusion checks (sound, incomplete); three genuine defects are known findings with generator guards.",ref="DESIGN.md §5 C02"),
  "C06":dict(cat="exploration",technique="runtime monitoring: differential infoset oracle (own XML tokenizer with attribute-value normalisation + encoding/xml strict) over an exhaustive neighbour matrix and seeded generated documents",
    text="The real XML minifier is run, with both KeepWhitespace values, on every ordered triple of ten node kinds around whitespace runs (exhaustive), on seeded generated well-formed documents and on repository XML files; input and output are tokenized by my own XML tokenizer and compared as infoset event streams (elements, normalised attribute values, PIs, DOCTYPE, character-data runs up to collapsing/trimming, KeepWhitespace boundary rule), and the output must be well-formed for my tokenizer and encoding/xml.",
    note="Trusts my tokenizer and encoding/xml; PI data compared up to whitespace outside quotes; two genuine defects (]]> in character data, PI data re-printed as attributes) are known findings with input guards.",ref="DESIGN.md §5 C06"),
